@@ -67,6 +67,13 @@ class GenericSystemRegistry(
         super()._init_dynamic_classes()
         self.System = create_class_with_registry(self, objects.System)
 
+    def _add_unit(self, definition) -> None:
+        redefined = definition.name in self._units
+        super()._add_unit(definition)
+        if redefined:
+            # base units computed from the previous definition
+            self._base_units_cache = {}
+
     def _after_init(self) -> None:
         """Invoked at the end of ``__init__``.
 
